@@ -1,7 +1,10 @@
 use std::io::Error;
 use std::sync::Arc;
 
+#[cfg(not(saito_verif))]
 use tokio::sync::RwLock;
+#[cfg(saito_verif)]
+use crate::core::util::verif::RwLock;
 
 use crate::core::consensus::blockchain::Blockchain;
 use crate::core::consensus::mempool::Mempool;
